@@ -189,6 +189,15 @@ pub mod sched {
         *CONTROLLER.write().unwrap() = c;
     }
 
+    /// Calls [`point`] when dropped, i.e. after the expression it guards has been evaluated.
+    pub struct PointOnDrop(pub &'static str);
+
+    impl Drop for PointOnDrop {
+        fn drop(&mut self) {
+            point(self.0)
+        }
+    }
+
     #[inline]
     pub fn point(name: &'static str) {
         let c = CONTROLLER.read().unwrap().clone();
